@@ -239,7 +239,7 @@ class ContinuousDomain(object):
       points = generate_halton_points(
         num_points,
         domain_bounds,
-        skip=self._quasi_random_sampler_opts.get("skip"),
+        skip=self._quasi_random_sampler_opts.get("skip") or 0,
         seed=self._quasi_random_sampler_opts.get("seed"),
       )
     elif self._quasi_random_sampler_opts["sampler"] == "uniform":
@@ -248,7 +248,7 @@ class ContinuousDomain(object):
       points = generate_sobol_points(
         num_points,
         domain_bounds,
-        skip=self._quasi_random_sampler_opts.get("skip"),
+        skip=self._quasi_random_sampler_opts.get("skip") or 0,
         seed=self._quasi_random_sampler_opts.get("seed"),
       )
     else:
